@@ -77,7 +77,9 @@ pub fn disarm() -> bool {
 #[derive(Default)]
 pub struct Registry {
     pub enabled: bool,
-    /// 1 = live, 2 = dropped
+    /// ids below `base` belong to earlier tracking windows and are ignored
+    base: u64,
+    /// state of id `base + i`: 1 = live, 2 = dropped
     state: Vec<u8>,
     pub double_drops: u32,
     pub created: u32,
@@ -87,50 +89,54 @@ thread_local! {
     static REG: RefCell<Registry> = RefCell::new(Registry::default());
 }
 
-fn reg_new() -> u32 {
+fn reg_new() -> u64 {
     REG.with(|r| {
         // try_borrow: a Drop running while the registry is being inspected must never panic
         if let Ok(mut r) = r.try_borrow_mut() {
             if r.enabled {
-                if r.state.is_empty() {
-                    r.state.push(0); // id 0 = untracked
-                }
                 r.state.push(1);
                 r.created += 1;
-                return (r.state.len() - 1) as u32;
+                return r.base + r.state.len() as u64; // never 0
             }
         }
         0
     })
 }
 
-fn reg_drop(id: u32) {
+fn reg_drop(id: u64) {
     if id == 0 {
         return;
     }
     REG.with(|r| {
         if let Ok(mut r) = r.try_borrow_mut() {
-            if !r.enabled {
-                return;
+            if id <= r.base {
+                return; // object from an earlier tracking window
             }
-            match r.state.get(id as usize).copied() {
-                Some(1) => r.state[id as usize] = 2,
+            let i = (id - r.base - 1) as usize;
+            match r.state.get(i).copied() {
+                Some(1) => r.state[i] = 2,
                 Some(2) => r.double_drops += 1,
-                _ => {} // object from an earlier tracking window
+                _ => {}
             }
         }
     })
 }
 
-/// Start a tracking window: every Item/Prio created or cloned from now on gets an id.
+/// Start a tracking window: every Item/Prio created or cloned from now on gets a fresh id.
 pub fn registry_begin() {
     REG.with(|r| {
         let mut r = r.borrow_mut();
         r.enabled = true;
+        r.base += r.state.len() as u64 + 1;
         r.state.clear();
         r.double_drops = 0;
         r.created = 0;
     })
+}
+
+/// Suspend / resume id assignment inside a window (objects created while paused are untracked).
+pub fn registry_pause(paused: bool) {
+    REG.with(|r| r.borrow_mut().enabled = !paused)
 }
 
 /// End the window; returns (created, still_live, double_drops).
@@ -143,18 +149,13 @@ pub fn registry_end() -> (u32, u32, u32) {
     })
 }
 
-/// Number of tracked objects alive right now (inside a window).
-pub fn registry_live() -> u32 {
-    REG.with(|r| r.borrow().state.iter().filter(|&&s| s == 1).count() as u32)
-}
-
 // ---------------------------------------------------------------------------------------------
 // Item: identity = key; payload is ignored by Eq/Hash
 
 pub struct Item {
     pub key: u32,
     pub payload: u8,
-    id: u32,
+    id: u64,
 }
 
 impl Item {
@@ -223,7 +224,7 @@ impl Borrow<Key> for Item {
 
 pub struct Prio {
     pub v: i32,
-    id: u32,
+    id: u64,
 }
 impl Prio {
     #[inline]
@@ -393,5 +394,42 @@ impl<T> Iterator for Hinted<T> {
     /// what was already yielded, the upper bound only ever over-estimates.
     fn size_hint(&self) -> (usize, Option<usize>) {
         (self.lo.saturating_sub(self.consumed), self.hi)
+    }
+}
+
+// ---------------------------------------------------------------------------------------------
+// serde (C15): an item is [key, payload], a priority is an integer
+
+impl serde::Serialize for Item {
+    fn serialize<S: serde::Serializer>(&self, s: S) -> Result<S::Ok, S::Error> {
+        (self.key, self.payload).serialize(s)
+    }
+}
+impl<'de> serde::Deserialize<'de> for Item {
+    fn deserialize<D: serde::Deserializer<'de>>(d: D) -> Result<Item, D::Error> {
+        let (k, p) = <(u32, u8)>::deserialize(d)?;
+        Ok(Item::new(k, p))
+    }
+}
+impl serde::Serialize for Prio {
+    fn serialize<S: serde::Serializer>(&self, s: S) -> Result<S::Ok, S::Error> {
+        self.v.serialize(s)
+    }
+}
+impl<'de> serde::Deserialize<'de> for Prio {
+    fn deserialize<D: serde::Deserializer<'de>>(d: D) -> Result<Prio, D::Error> {
+        Ok(Prio::new(i32::deserialize(d)?))
+    }
+}
+
+/// Iterator wrapper that hides its length (so a SeqAccess built on it reports no size hint).
+pub struct NoHint<I>(pub I);
+impl<I: Iterator> Iterator for NoHint<I> {
+    type Item = I::Item;
+    fn next(&mut self) -> Option<I::Item> {
+        self.0.next()
+    }
+    fn size_hint(&self) -> (usize, Option<usize>) {
+        (0, None)
     }
 }
